@@ -1181,7 +1181,8 @@ static bool read_stdin(file_mem &fm)
    _setmode(_fileno(stdin), _O_BINARY);
 #endif
 
-   while (!feof(stdin))
+   while (  !feof(stdin)
+         && !ferror(stdin))       // a read error is not the end of the file
    {
       int len = fread(buf, 1, sizeof(buf), stdin);
 
@@ -1189,6 +1190,11 @@ static bool read_stdin(file_mem &fm)
       {
          dq.push_back(buf[idx]);
       }
+   }
+
+   if (ferror(stdin))
+   {
+      return(false);
    }
    // Copy the raw data from the deque to the vector
    fm.raw.insert(fm.raw.end(), dq.begin(), dq.end());
